@@ -357,7 +357,18 @@ def check_reader(p, res, im, fn):
         if f0 in DIM_FIELDS and len(fields) == 1 and im["crate"] == "poulpy_hal":
             if srcs:
                 valid, dom = validated_sources(fn, g, taint, gs, bi)
-                if srcs <= valid:
+                # the committed value must be the validated header value itself, not something computed from it
+                derived = set()
+                if rv["k"] in ("Use", "Cast"):
+                    for o in rv["o"]:
+                        for r in flow.op_roots(o):
+                            if not (r[0] == "call" and r[1] in srcs):
+                                derived.add(r[:2])
+                if srcs <= valid and derived:
+                    res.bad("SER-2", fkey, "commit-derived:%s" % f0,
+                            "%s: dimension field `%s` is committed with a value computed from the validated header field (and %s), not with the validated value itself: the capacity check no longer covers what is stored"
+                            % (fkey, f0, ", ".join(sorted("%s@bb%s" % x for x in derived))), site=fn.where(line))
+                elif srcs <= valid:
                     res.ok("SER-2", {"reader": fkey, "field": f0, "validated": True})
                 else:
                     res.bad("SER-2", fkey, "commit:%s" % f0,
